@@ -159,7 +159,11 @@ def run_property(pid, tier, seed):
         if (f_, q_) in undecided_fns:
             continue        # a variant of this function did not run to the end: its coverage is unknown, the unit is reported undecided
         miss = sorted(w - g)
-        if miss:
+        stale = [f for u, r in unit_results if (u.file, u.qual) == (f_, q_) for f in r.get('stale_unreachable_ok', ())]
+        if miss and stale:
+            # the contract declares statements unreachable by their text, and that text is no longer in the function: the declaration has to be re-bound by a human
+            undecided.append((f'{q_}', f'contract binding error: statements at lines {miss} are on no explored path and the contract\'s unreachable-statement declarations {stale[:3]} match nothing in the current text'))
+        elif miss:
             engine_errors.append(f'vacuity: statements of {q_} at lines {miss} lie on no feasible path of any unit (dead under the contract?)')
 
     failed = [o for o in asserts if o.result == 'failed']
